@@ -831,7 +831,11 @@ fn configure_build(
             // ```
             //
             // ... becomes `echo foo && echo bar` as ninja build command.
-            let build_cmd = &build.cmd.join(" && ");
+            let build_cmd = &build
+                .cmd
+                .iter()
+                .map(|cmd| cmd.trim_end_matches(['\n', '\r']))
+                .join(" && ");
             let expanded = nested_env::expand_eval(build_cmd, &flattened_env, IfMissing::Empty)
                 .with_context(|| format!("module \"{}\": build cmd", module.name))?;
 
@@ -843,6 +847,8 @@ fn configure_build(
                 .deps(build.gcc_deps.as_ref())
                 .build()
                 .unwrap()
+                .single_line()
+                .with_context(|| format!("module \"{}\"", module.name))?
                 .named();
 
             // collect any specified sources
